@@ -247,6 +247,7 @@ static int sin_handler(void *arg, MPT_STRUCT(event) *ev)
 	}
 	return ret;
 }
+static int sin_ro;
 static int sin_fresh;       /* stream input opened and no request handled yet (nothing ever written) */
 static int sin_act_ok(const char *acts, int fresh)
 {
@@ -297,16 +298,65 @@ static int creply_handler(void *arg, const MPT_STRUCT(message) *msg)
 		for (size_t i = 0; i < n && creplen + 3 < sizeof(crep); i++) { crep[creplen++] = d[b[i] >> 4]; crep[creplen++] = d[b[i] & 15]; }
 	}
 	crep[creplen++] = ')'; crep[creplen] = 0;
-	return 0;
+	/* tags from 900000 on: a command that reports failure */
+	return (intptr_t) arg >= 900000 ? -1 : 0;
+}
+static int ccon_dgram;      /* the connection is a datagram socket (no stream): every datagram is one message */
+/* what the peer received: COBS frames of the stream / the datagrams */
+static void con_frames(void)
+{
+	if (!ccon_dgram) { sin_frames(); return; }
+	uint8_t b[1 << 16]; ssize_t n; int any = 0;
+	while (sin_peer >= 0 && (n = recv(sin_peer, b, sizeof(b), MSG_DONTWAIT)) >= 0) {
+		if (any++) fputc(',', stdout);
+		printf("frame["); drv_puthex(stdout, b, n); printf("]");
+	}
+	if (!any) fputc('-', stdout);
 }
 static void con_op(void)
 {
 	const char *op = drv_w[1];
 	size_t a;
-	if (!strcmp(op, "open") && drv_nw == 3) {
+	if (!strcmp(op, "open") && drv_nw == 4 && !strcmp(drv_w[3], "dgram")) {
 		if (drv_parse_nat(drv_w[2], &a) || a > 255) { puts("bad-op"); return; }
 		sin_close(); ccon_release(); ccon_close(); sin_drop_peer();
 		creplen = 0;
+		int sv[2];
+		if (socketpair(AF_UNIX, SOCK_DGRAM, 0, sv) < 0) { puts("R nosocket | C - | I ret=0"); return; }
+		MPT_STRUCT(socket) sock; sock._id = sv[0];
+		MPT_STRUCT(connection) init = MPT_CONNECTION_INIT;
+		ccon = init;
+		int r = mpt_connection_assign(&ccon, &sock);      /* keeps a duplicate of the descriptor */
+		close(sv[0]);
+		if (r < 0) { close(sv[1]); puts("R refused | C - | I ret=0"); return; }
+		ccon.out._idlen = a;
+		ccon_open = 1; ccon_fresh = 0; ccon_dgram = 1;
+		sin_peer = sv[1]; sin_fd0 = -1;
+		puts("R ok | C - | I ret=0");
+	}
+	else if (ccon_dgram && ccon_open && !strcmp(op, "req") && drv_nw == 4) {
+		uint8_t *dat = 0; size_t dlen = 0; int isnull = 0;
+		int discard = !strcmp(drv_w[3], "discard");
+		if (drv_parse_data(drv_w[2], &dat, &dlen, &isnull) || isnull || dlen > 1000 || !(discard || sin_act_ok(drv_w[3], 0))) { puts("bad-op"); free(dat); return; }
+		if (send(sin_peer, dat, dlen, 0) != (ssize_t) dlen) { free(dat); puts("R nowrite | C - | I ret=0"); return; }
+		free(dat);
+		sin_called = sin_ctx = 0; sin_id = 0; sin_res[0] = 0;
+		sin_acts = drv_w[3];
+		sin_defer_keep = 1;
+		int rv = mpt_outdata_recv(&ccon.out);
+		int dr = mpt_connection_dispatch(&ccon, discard ? 0 : sin_handler, 0);
+		sin_defer_keep = 0;
+		printf("R called=%d ctx=%d id=%llu acts=%s | C ", sin_called, sin_ctx, sin_id, sin_called ? sin_res : "-");
+		if (creplen) { fputs(crep, stdout); creplen = 0; }
+		else con_frames();
+		/* same scale as the stream variant: 131072 = failed, else the event flags */
+		printf(" | I next=1 disp=%d\n", (rv < 0 || dr < 0) ? 131072 : (dr & 0xffff));
+	}
+	else if (ccon_dgram && ccon_open && (!strcmp(op, "await") || !strcmp(op, "send"))) puts("bad-op");
+	else if (!strcmp(op, "open") && drv_nw == 3) {
+		if (drv_parse_nat(drv_w[2], &a) || a > 255) { puts("bad-op"); return; }
+		sin_close(); ccon_release(); ccon_close(); sin_drop_peer();
+		creplen = 0; ccon_dgram = 0;
 		int sv[2];
 		if (socketpair(AF_UNIX, SOCK_STREAM, 0, sv) < 0) { puts("R nosocket | C - | I ret=0"); return; }
 		MPT_STRUCT(socket) sock; sock._id = sv[0];
@@ -356,10 +406,11 @@ static void con_op(void)
 		int r = chnd[a]->_vptr->reply(chnd[a], none ? 0 : &msg);
 		if (!(r < 0 && !none)) chnd[a] = 0;
 		free(dat);
-		if (ccon_open) mpt_stream_flush((void *) ccon.out.buf._buf);
+		if (ccon_open && !ccon_dgram) mpt_stream_flush((void *) ccon.out.buf._buf);
 		printf("R %s | C ", r < 0 ? "refused" : "ok");
-		sin_frames();
-		if (r < 0) printf(" | I ret=%s\n", drv_errname(r)); else printf(" | I ret=%d\n", r);
+		con_frames();
+		/* a datagram send reports the bytes sent, the stream 0 */
+		if (r < 0) printf(" | I ret=%s\n", drv_errname(r)); else printf(" | I ret=%d\n", ccon_dgram ? 0 : r);
 	}
 	else if (!strcmp(op, "await") && drv_nw == 3) {
 		if (!ccon_open || drv_parse_nat(drv_w[2], &a) || a > 1000000) { puts("bad-op"); return; }
@@ -383,7 +434,7 @@ static void con_op(void)
 		ccon_close();
 		printf("R ok | C ");
 		if (creplen) { fputs(crep, stdout); creplen = 0; }
-		else sin_frames();
+		else con_frames();
 		printf(" | I ret=0\n");
 	}
 	else puts("bad-op");
@@ -425,7 +476,7 @@ static void sin_op(void)
 		sin_in = mpt_stream_input(&sock, (drv_nw == 4 ? MPT_STREAMFLAG(Read) : MPT_STREAMFLAG(RdWr)) | MPT_STREAMFLAG(Buffer), MPT_ENUM(EncodingCobs), a);
 		if (!sin_in) { close(sv[0]); close(sv[1]); puts("R refused | C - | I ret=0"); return; }
 		sin_peer = sv[1]; sin_fd0 = sv[0];
-		sin_fresh = 1;
+		sin_fresh = 1; sin_ro = drv_nw == 4;
 		puts("R ok | C - | I ret=0");
 	}
 	else if (!strcmp(op, "req") && drv_nw == 4) {
@@ -444,7 +495,8 @@ static void sin_op(void)
 			nx = sin_in->_vptr->next(sin_in, POLLIN);
 			dr = sin_in->_vptr->dispatch(sin_in, sin_handler, 0);
 		}
-		sin_in->_vptr->next(sin_in, POLLIN | POLLOUT);
+		/* flush the answers (a read-only stream has nothing to flush and would block in the fast path for input) */
+		if (!sin_ro) sin_in->_vptr->next(sin_in, POLLIN | POLLOUT);
 		printf("R called=%d ctx=%d id=%llu acts=%s | C ", sin_called, sin_ctx, sin_id, sin_called ? sin_res : "-");
 		sin_frames();
 		printf(" | I next=%d disp=%d\n", nx, dr);
